@@ -152,3 +152,28 @@ Example c17_evolve_witness :
   | None => False
   end.
 Proof. vm_compute. repeat split; reflexivity. Qed.
+
+(* ---- tie to the source for the two variable instructions ---------------------------------------------
+   Reload.v's GlobalZero / GlobalSet transcribe GLOBALZERO / GLOBALSET of do.go.  For these two opcodes the
+   dispatch case is ALSO regenerated from do.go by go2v on every run (Gen/Steps_gen.v), and the theorems
+   below are about that generated step: GLOBALZERO leaves the VM state exactly as it is when the variable
+   already holds a non-nil value (whatever its dynamic type, whatever the declared type operand B) and
+   otherwise stores the zero value of the declared type; GLOBALSET stores the operand, assigned the type of
+   the variable's current value.  A change of either case in do.go (e.g. re-zeroing on some condition of
+   the old value) breaks these theorems. *)
+From Coq Require Import String.
+From GV Require Import GoSpec.GoPrim Gen.ValueOps_gen Gen.Tables_gen Model.VM Gen.Steps_gen Proofs.C04_vm.
+Open Scope string_scope.
+Theorem c17_globalzero_from_source : forall i slots ops s g, icode i = C "codeGlobalZero" ->
+  znth (globals s) (iA i) = Some g ->
+  step_gen i slots ops s =
+    Some (if Value_IsNil g then SNext slots ops (set_global s (iA i) (Value_assign (fn_newZero (iB i)) (vt g)))
+          else SNext slots ops s).
+Proof. exact vm_globalzero_step. Qed.
+Print Assumptions c17_globalzero_from_source.
+
+Theorem c17_globalset_from_source : forall i slots a rest s g, icode i = C "codeGlobalSet" ->
+  znth (globals s) (iA i) = Some g ->
+  step_gen i slots (a :: rest) s = Some (SNext slots rest (set_global s (iA i) (Value_assign a (vt g)))).
+Proof. exact vm_globalset_step. Qed.
+Print Assumptions c17_globalset_from_source.
